@@ -3,12 +3,32 @@ package main
 import (
 	"fmt"
 	"math/rand"
+	"strings"
 )
 
+// streamFuncs and replayFuncs are filled by the init functions of the stream_*.go files.
+var streamFuncs = map[string]func(r *runner, rng *rand.Rand) error{}
+
+// replayFuncs maps a request verb (first token of a line) to its replayer.
+var replayFuncs = map[string]func(r *runner, id, line string){}
+
 func (r *runner) otherStream(rng *rand.Rand) error {
-	return fmt.Errorf("unknown stream %q", *stream)
+	f, ok := streamFuncs[*stream]
+	if !ok {
+		return fmt.Errorf("unknown stream %q", *stream)
+	}
+	return f(r, rng)
 }
 
 func (r *runner) replayOther(id, line string) {
+	verb := strings.Fields(line)[0]
+	if f, ok := replayFuncs[verb]; ok {
+		f(r, id, line)
+		return
+	}
 	r.mismatch(Mismatch{Case: id, Request: line, Note: "unknown request verb"})
 }
+
+// noModelStreams lists streams that compare the real code with regenerated facts or with
+// itself and do not need the Lean model process.
+var noModelStreams = map[string]bool{}
